@@ -57,6 +57,10 @@ def gate(ctx: Ctx) -> None:
     handed = [g.nodes[i] for i in r if g.nodes[i].kind == "return" and dotted(g.nodes[i].ast.value) == "msg"]
     ctx.check(not dead and len(handed) == 1, "R-C12-GATE", f, "in-memory: live message handed out, never dead-lettered", "return msg", "in-memory __consume_normal dead-letters (or withholds) a live message",
               instance="in-memory live")
+    r = flow.reach_under(g, {**_topic_env(True, False), **category_env(True, "NORMAL")}, flow.NORMAL_KINDS)
+    dead = [g.nodes[i] for i in r if g.nodes[i].kind == "call" and "dead" in C.attr_chain(g.nodes[i].ast.func)]
+    ctx.check(not dead, "R-C12-GATE", f, "in-memory: a live message of a foreign topic is not dead-lettered", "no +dead without expiry",
+              "in-memory __consume_normal dead-letters a live message (foreign topic) - never dead-lettered for a reason other than expiry", instance="in-memory live foreign")
     tests = [t for t in g.nodes if t.kind == "test" and _mentions(t.ast, "is_overdue")]
     ok = len(tests) == 1 and unparse(tests[0].ast) == "msg.parameters.is_overdue"
     ctx.check(ok, "R-C12-GATE", f, "in-memory: the test reads the taken message's own parameters", "msg.parameters.is_overdue", f"in-memory overdue test is {[t.label for t in tests]}", instance="in-memory test operand")
@@ -141,6 +145,9 @@ def gate(ctx: Ctx) -> None:
                       node=nacks[0], instance=f"rabbitmq[{cat},{overdue}]")
             if want_nack:
                 ctx.check(not any(s.id in r for s in tagst), rule, f, "rabbitmq: an overdue message is not registered as held", "no delivery tag stored", "rabbitmq registers an overdue message as held", instance="rabbitmq overdue not held")
+    r = flow.reach_under(g, {**_topic_env(True, False, active), **category_env(True, "NORMAL")}, flow.NORMAL_KINDS)
+    ctx.check(not any(n.id in r for n in nacks), "R-C12-GATE", f, "rabbitmq: a live message of a foreign topic is not dead-lettered", "no nack without expiry",
+              "rabbitmq on_new_message nacks (dead-letters) a live message of a foreign topic", instance="rabbitmq live foreign")
     for nk in nacks:
         ok = unparse(nk.ast.args[0]) == "message.delivery_tag" and C.is_const(C.kw(nk.ast, "requeue"), False)
         ctx.check(ok, "R-C12-GATE", f, "rabbitmq: basic_nack(delivery_tag, requeue=False)", "dead-lettered through the DLX", f"rabbitmq overdue branch calls {unparse(nk.ast)[:80]}", node=nk, instance="rabbitmq nack call")
